@@ -238,6 +238,13 @@ func (e *Exec) builtin(st *State, fr *Frame, bi *ssa.Builtin, args []Value, x *s
 			if a.Obj < 0 {
 				return e.i64(0), false
 			}
+			if e.sharedChan(st, a) {
+				l := e.freshVar("chlen", 64)
+				e.recChan(st, EvChanLen, a, l, e.instrPos(fr, x))
+				cv := st.heap[a.Obj].V.(*ChanV)
+				e.assumeTrusted(st, e.C.And(e.C.Sle(e.i64(0), l), e.C.Sle(l, e.i64(cv.Cap))))
+				return l, false
+			}
 			return e.i64(len(st.heap[a.Obj].V.(*ChanV).Q)), false
 		case *ArrayV:
 			return e.i64(len(a.E)), false
@@ -361,6 +368,7 @@ func (e *Exec) appendOp(st *State, fr *Frame, args []Value, x *ssa.Call) Value {
 	switch t := args[1].(type) {
 	case *SliceV:
 		for i := 0; i < t.Len; i++ {
+			e.recAccess(st, t.Arr.sub(t.Off+i), false, fr, x)
 			add = append(add, st.load(t.Arr.sub(t.Off+i)))
 		}
 	case *Str:
@@ -375,6 +383,7 @@ func (e *Exec) appendOp(st *State, fr *Frame, args []Value, x *ssa.Call) Value {
 		for i, v := range add {
 			p := s.Arr.sub(s.Off + s.Len + i)
 			e.monitorStore(st, p, fr, x)
+			e.recAccess(st, p, true, fr, x)
 			st.store(p, v)
 		}
 		return &SliceV{Arr: s.Arr, Off: s.Off, Len: s.Len + len(add), Cap: s.Cap}
@@ -390,6 +399,7 @@ func (e *Exec) appendOp(st *State, fr *Frame, args []Value, x *ssa.Call) Value {
 	}
 	arr := make([]Value, ncap)
 	for i := 0; i < s.Len; i++ {
+		e.recAccess(st, s.Arr.sub(s.Off+i), false, fr, x)
 		arr[i] = st.load(s.Arr.sub(s.Off + i))
 	}
 	copy(arr[s.Len:], add)
